@@ -325,6 +325,45 @@ def search_state(run):
             run.fail_input("ice-reparameterised", {"class": cls.__name__, "steps": steps, "depths": zs, "indices": ns},
                            observed=got, expected=exp,
                            what="an ice model re-parameterised in place differs from a fresh model with the same parameters")
+    # returned objects are the caller's: results kept alive are not rewritten by later calls, and modifying a returned
+    # array does not change later answers
+    for name, ice in shipped() + [("uniform", UniformIce(1.5, valid_range=(-500, 0)))]:
+        lo, hi = ice.valid_range
+        zs = [float(run.rng.uniform(lo, hi)) for _ in range(5)]
+        kept_g = [ice.gradient(z) for z in zs]
+        fresh_g = [np.array(ice.gradient(z), dtype=float).copy() for z in zs]
+        kept_i = [ice.index(np.array([z, z - 1.0])) for z in zs]
+        fresh_i = [np.array(ice.index(np.array([z, z - 1.0])), dtype=float).copy() for z in zs]
+        fa = np.array([1e8, 3e8])
+        kept_a = [ice.attenuation_length(np.array([z, z / 2]), fa) for z in zs] if name != "uniform" else []
+        fresh_a = [np.array(ice.attenuation_length(np.array([z, z / 2]), fa), dtype=float).copy() for z in zs] if name != "uniform" else []
+        run.case((name, "returned-objects", tuple(zs)))
+        run.count("state_returned_objects")
+        bad = [("gradient", z) for z, k_, f_ in zip(zs, kept_g, fresh_g) if not np.array_equal(np.asarray(k_, dtype=float), f_)] + \
+              [("index", z) for z, k_, f_ in zip(zs, kept_i, fresh_i) if not np.array_equal(np.asarray(k_, dtype=float), f_)] + \
+              [("attenuation_length", z) for z, k_, f_ in zip(zs, kept_a, fresh_a) if not np.array_equal(np.asarray(k_, dtype=float), f_)]
+        if bad:
+            run.fail_input("returned-object-rewritten", {"ice": name, "depths": zs, "which": bad[:4]},
+                           what="a result kept by the caller was rewritten by a later call (%s at depth %r)" % bad[0])
+            continue
+        g = ice.gradient(zs[0])
+        try:
+            g[0] = 7.0; g[1] = -3.0                      # the caller scribbles on what it was handed
+        except (TypeError, ValueError):
+            pass
+        i1 = ice.index(np.array(zs))
+        try:
+            i1[:] = -1.0
+        except (TypeError, ValueError):
+            pass
+        again_g = np.array(ice.gradient(zs[1]), dtype=float)
+        again_i = np.array(ice.index(np.array(zs)), dtype=float)
+        exp_i = np.array([float(ice.index(z)) for z in zs])
+        if again_g[0] != 0 or again_g[1] != 0 or not np.array_equal(again_g, fresh_g[1]) or not np.array_equal(again_i, exp_i):
+            run.fail_input("returned-object-aliased", {"ice": name, "depths": zs},
+                           observed={"gradient": [float(v) for v in again_g], "index": [float(v) for v in again_i]},
+                           expected={"gradient": [float(v) for v in fresh_g[1]], "index": [float(v) for v in exp_i]},
+                           what="modifying a returned array changed a later answer of the ice model")
     for rep in range(run.scale(6, 60)):
         bounds = sorted({round(-run.rng.uniform(10, 2000), 1) for _ in range(run.rng.randint(2, 4))} | {0.0}, reverse=True)
         mk = lambda i: UniformIce(index=1.3 + 0.1 * i, valid_range=(bounds[i + 1], bounds[i]), index_above=None, index_below=None)
@@ -415,6 +454,18 @@ def search_layered(run):
                                              "layer_above": [l._index_above for l in li.layers]},
                            observed={"layer_at_depth": got, "index": float(li.index(z))}, expected=float(exp_above),
                            what="depth above the layer stack is dispatched to a layer / does not get the stack's index_above")
+        # depths strictly below the stack get the stack's declared index_below (= the lowermost layer's index at its
+        # lower boundary when the stack declares none), whatever the lowermost layer itself declares for below its range
+        for ib in (None, 2.5):
+            lj = LayeredIce(layers, index_above=ia, index_below=ib)
+            exp_below = float(lj.layers[-1].index(lj.layers[-1].valid_range[0])) if ib is None else float(ib)
+            zb = [b[-1] - 1.0, b[-1] - run.rng.uniform(1e-6, 500), float(np.nextafter(b[-1], -np.inf))]
+            gotb = [float(lj.index(z_)) for z_ in zb] + [float(v) for v in lj.index(np.array(zb))]
+            if float(lj.index_below) != exp_below or any(g != exp_below for g in gotb):
+                run.fail_input("layered-below", {"bounds": b, "stack_index_below": ib, "depths": zb,
+                                                 "layer_below": [l._index_below for l in lj.layers]},
+                               observed={"index": gotb, "index_below": float(lj.index_below)}, expected=exp_below,
+                               what="depth below the layer stack does not get the stack's declared index_below")
         # scalar, list and array call forms agree everywhere, in particular exactly on the layer boundaries
         zs = list(b) + [float(np.nextafter(x, -np.inf)) for x in b] + [float(np.nextafter(x, np.inf)) for x in b[1:]] \
             + [run.rng.uniform(b[-1], b[0]) for _ in range(4)]
